@@ -292,8 +292,33 @@ def build_suite(node):
     return s
 
 
+class NotAnException(BaseException):
+    pass
+
+
+def fail_import(modname, where):
+    """raise what world.json says this module raises at import time / inside test_suite()"""
+    kind = WORLD["modules"][modname].get("importError")
+    if not kind:
+        return
+    if kind is True:
+        kind = "error"
+    if kind.startswith("suite:"):
+        if where != "suite":
+            return
+        kind = kind[6:]
+    elif where != "import":
+        return
+    if kind == "sysexit0":
+        raise SystemExit(0)
+    if kind == "sysexit3":
+        raise SystemExit(3)
+    if kind == "base":
+        raise NotAnException("module %s cannot be imported" % modname)
+    raise ImportError("module %s cannot be imported" % modname)
+
+
 def suite_for_module(modname):
     mod = WORLD["modules"][modname]
-    if mod.get("importError"):
-        raise ImportError("module %s cannot be imported" % modname)
+    fail_import(modname, "suite")
     return unittest.TestSuite([build_suite(n) for n in mod["suites"]])
